@@ -162,6 +162,14 @@ def runOp (st : DSt) (toks : List String) : Option (String × Option Bytes) := d
   | "s_extend_chars" => let cs ← (kvS toks "cs").bind parseCps; return ("unit", some (extendChars s cs))
   | "s_extend_strs" => let ts ← (kvS toks "ts").bind parseTexts; return ("unit", some (extendStrs s ts))
   | "s_clone" => return (s!"clone={bytesHex (clone s)}", some s)
+  | "s_index" =>
+    -- `&s[range]`: every `Index` impl slices the text like `str` does (in range, both ends on char boundaries, else a panic)
+    let k ← kvNatS toks "k"; let a ← kvNatS toks "a"; let b ← kvNatS toks "b"
+    let lo := if k == 1 || k == 3 || k == 4 then a else 0
+    let hi := if k == 0 || k == 1 then s.length else if k == 4 || k == 5 then b + 1 else b
+    if lo ≤ hi && hi ≤ s.length && isCharBoundary s lo && isCharBoundary s hi then
+      return (s!"text={bytesHex ((s.drop lo).take (hi - lo))}", some s)
+    else return ("panic", some s)
   | "s_clone_from" => let t ← (kvS toks "t").bind parseBytes; return ("unit", some (clone t))
   | "s_write" =>
     let t ← (kvS toks "t").bind parseBytes; let v ← (kvS toks "v").bind (·.toInt?)
